@@ -53,12 +53,23 @@ func (s *Segment) getDocStoredOffsets(buf []byte, docNum uint64) (indexOffset, s
 		return 0, 0, 0, 0, 0, nil, err
 	}
 
-	metaLenData := uncompressed[int(storedOffset):int(storedOffset+binary.MaxVarintLen64)]
+	// the look-ahead for the two uvarints must not reach beyond the block: the
+	// last record of a block can be shorter than MaxVarintLen64 bytes and the
+	// buffer need not have spare capacity (copyStoredDocs clamps the same way)
+	metaLenEnd := storedOffset + binary.MaxVarintLen64
+	if metaLenEnd > uint64(len(uncompressed)) {
+		metaLenEnd = uint64(len(uncompressed))
+	}
+	metaLenData := uncompressed[int(storedOffset):int(metaLenEnd)]
 	var read int
 	metaLen, read = binary.Uvarint(metaLenData)
 	n += uint64(read)
 
-	dataLenData := uncompressed[int(storedOffset+n):int(storedOffset+n+binary.MaxVarintLen64)]
+	dataLenEnd := storedOffset + n + binary.MaxVarintLen64
+	if dataLenEnd > uint64(len(uncompressed)) {
+		dataLenEnd = uint64(len(uncompressed))
+	}
+	dataLenData := uncompressed[int(storedOffset+n):int(dataLenEnd)]
 	dataLen, read = binary.Uvarint(dataLenData)
 	n += uint64(read)
 
